@@ -200,7 +200,8 @@ impl BDF {
             let mut f1 = vec![0.0; n];
             let mut y1 = vec![0.0; n];
             let guess = hinit(
-                f, x, &y, direction, &f0, &mut f1, &mut y1, 1, hmax.min((xend - x).abs()), &atol, &rtol,
+                // hinit takes the root of order `iord`; an error estimate of order 1 (BDF1) asks for iord = 2
+                f, x, &y, direction, &f0, &mut f1, &mut y1, 2, hmax.min((xend - x).abs()), &atol, &rtol,
             );
             evals.ode += 1;
             // Ensure x + h isn't larger than xend
